@@ -208,9 +208,9 @@ func widen5(tr *L1Track) {
 func genC10(seed uint64, tier, outdir string) *Report {
 	w := DefaultL1Weights
 	w.Create, w.Deposit, w.Propose, w.Claim, w.Send = 10, 50, 6, 8, 6
-	return runMoneyStream(MoneyStream{Prop: "C10", Weights: w, NRandom: [2]int{24, 500}, Len: [2]int{60, 120},
-		Scripts: []func(*L1Scenario, int){c10Script}, NScript: [2]int{24, 400}, Widen: widen5,
+	return runMoneyStream(MoneyStream{Prop: "C10", Weights: w, NRandom: [2]int{24, 250}, Len: [2]int{60, 120},
+		Scripts: []func(*L1Scenario, int){c10Script}, NScript: [2]int{24, 200}, Widen: widen5,
 		Monitors: []L1Monitor{c10Monitor},
-		Rule: "a case is one L1 history on a fresh instance (scripted creation/deposit interleaving over ids 1-5 plus random tail, or fully random); distinct by hash of the op list; non-trivial = at least one deposit accepted and at least one rejected"},
+		Rule:     "a case is one L1 history on a fresh instance (scripted creation/deposit interleaving over ids 1-5 plus random tail, or fully random); distinct by hash of the op list; non-trivial = at least one deposit accepted and at least one rejected"},
 		seed, tier, outdir)
 }
